@@ -104,6 +104,8 @@ where
     pub queue: Queue,
     pub oneshot: OneShotState,
     pub last_press_tracker: LastPressTracker,
+    /// Nesting depth of the `MultipleActions` whose items are being performed, 0 outside of one.
+    multi_action_depth: u8,
     pub active_sequences: ArrayDeque<SequenceState<'a, T>, 4, arraydeque::behavior::Wrapping>,
     pub action_queue: ActionQueue<'a, T>,
     pub rpt_action: Option<&'a Action<'a, T>>,
@@ -1119,6 +1121,7 @@ impl<'a, const C: usize, const R: usize, T: 'a + Copy + std::fmt::Debug> Layout<
                 ticks_to_ignore_events: 0,
             },
             last_press_tracker: Default::default(),
+            multi_action_depth: 0,
             active_sequences: ArrayDeque::new(),
             action_queue: ArrayDeque::new(),
             rpt_action: None,
@@ -1648,10 +1651,15 @@ impl<'a, const C: usize, const R: usize, T: 'a + Copy + std::fmt::Debug> Layout<
             self.last_press_tracker.tap_hold_timeout = 0;
         }
         use Action::*;
-        self.states.retain(|s| match s {
-            NormalKey { flags, .. } => !flags.nkf_clear_on_next_action(),
-            _ => true,
-        });
+        // The keys of an output chord are cleared by the next action. The items of one multi are
+        // one action in this respect: an output chord inside a multi must survive the items
+        // that follow it, e.g. (multi S-1 lctl).
+        if self.multi_action_depth == 0 {
+            self.states.retain(|s| match s {
+                NormalKey { flags, .. } => !flags.nkf_clear_on_next_action(),
+                _ => true,
+            });
+        }
         match action {
             NoOp => {
                 // There is an interaction between oneshot and chordsv2 here.
@@ -1923,6 +1931,7 @@ impl<'a, const C: usize, const R: usize, T: 'a + Copy + std::fmt::Debug> Layout<
             &MultipleActions(v) => {
                 self.last_press_tracker.update_coord(coord);
                 let mut custom = CustomEvent::NoEvent;
+                self.multi_action_depth = self.multi_action_depth.saturating_add(1);
                 for action in *v {
                     custom.update(self.do_action(
                         action,
@@ -1932,6 +1941,7 @@ impl<'a, const C: usize, const R: usize, T: 'a + Copy + std::fmt::Debug> Layout<
                         &mut layer_stack.clone(),
                     ));
                 }
+                self.multi_action_depth = self.multi_action_depth.saturating_sub(1);
                 // Save the whole multi action instead of the final action in multi so that Repeat
                 // repeats all of the actions in this multi.
                 self.rpt_action = Some(action);
